@@ -87,6 +87,19 @@ class C17(Prop):
                 hs |= {t2, max(t2 - 1, 0)}
                 for h in sorted(hs):
                     yield mk('c17.powChain', chain, h.to_bytes(32, 'little').hex(), b, tag='pow')
+        # (d) the same compact values under the chains in the opposite order (regtest first): an answer
+        #     memoised under one chain must not survive SelectParams()
+        probe = sorted({self.S.compact_from_uint256(v) for lim in limits.values()
+                        for v in (lim, lim >> 1, lim >> 8, lim >> 9, lim >> 31, lim >> 32, lim >> 33)}
+                       | {0x207fffff, 0x2000ffff, 0x1d010000, 0x1d00ffff, 0x1e0377ae, 0x1f00ffff})
+        for rnd in range(2):
+            for chain in (CHAINS[::-1] if rnd == 0 else CHAINS):
+                for b in probe:
+                    i += 1
+                    if i % nshards != shard:
+                        continue
+                    for h in (0, 1):
+                        yield mk('c17.powChain', chain, h.to_bytes(32, 'little').hex(), b, tag='pow-switch')
 
     def impl(self, c):
         S = self.S
